@@ -10158,10 +10158,22 @@ int cg_conn_read(int fn, int B, int Z, int J, cgsize_t *pnts,
      /* read donor points from ADF file - data_type may be I4, R4 or R8 */
     if (conn->dptset.npts > 0) {
         cgns_ptset dptset = conn->dptset;
+        const char *dzone = conn->donor;
+        const char *sep = strchr(conn->donor, '/');
+        int dB = B-1;
         index_dim = 0;
-        for (n=0; n<cg->base[B-1].nzones; n++) {
-            if (strcmp(cg->base[B-1].zone[n].name,conn->donor)==0) {
-            index_dim = cg->base[B-1].zone[n].type == CGNS_ENUMV(Structured) ? cell_dim : 1;
+        if (sep != NULL) {
+             /* donor given as BaseName/ZoneName: resolve it as cg_conn_info does */
+            size_t len = (size_t)(sep - conn->donor);
+            dzone = sep + 1;
+            for (dB=0; dB<cg->nbases; dB++) {
+                if (strlen(cg->base[dB].name) == len &&
+                    strncmp(cg->base[dB].name, conn->donor, len) == 0) break;
+            }
+        }
+        for (n=0; dB<cg->nbases && n<cg->base[dB].nzones; n++) {
+            if (strcmp(cg->base[dB].zone[n].name,dzone)==0) {
+                index_dim = cg->base[dB].zone[n].type == CGNS_ENUMV(Structured) ? cell_dim : 1;
                 break;
             }
         }
